@@ -15,6 +15,7 @@ clone, pg.evolution.mutators.Swap.
 from harness.common.framework import Prop, CaseTimeout
 from harness import c11_geno as G
 from harness import c11 as H
+from translate import t_c12
 
 KEY_TYPES = ['id', 'name_or_id']
 VALUE_TYPES = ['value', 'dna', 'choice', 'literal', 'choice_and_literal']
@@ -187,11 +188,40 @@ def lookups(d, spec):
   return res, ident
 
 
+def lookup_tables(d, spec):
+  """The look-up structures themselves, in the dictionaries' own order (compared with the Lean model)."""
+  from pyglove.core import geno
+
+  def lv(v):
+    if isinstance(v, geno.DNA):
+      return {'one': H.tree_of(v)}
+    if isinstance(v, list):
+      return {'many': [None if x is None else H.tree_of(x) for x in v]}
+    return None
+
+  def item(key):
+    try:
+      return lv(d[key])
+    except CaseTimeout:
+      raise
+    except KeyError:
+      return 'KeyError'
+    except Exception as e:   # pylint: disable=broad-except
+      return 'error:' + type(e).__name__
+
+  return {
+      'by_id': [[str(k), lv(v)] for k, v in d._decision_by_id.items()],   # pylint: disable=protected-access
+      'named': [[k, lv(v)] for k, v in d.named_decisions.items()],
+      'ids': [str(k) for k in d.decision_ids],
+      'items': [[item(dp), item(str(dp.id))] + ([item(dp.name)] if dp.name else [])
+                for dp in spec.decision_points]}
+
+
 class C12(Prop):
   id = 'C12'
   props_modules = ['PgProps.C12']
   driver = 'drv_c12'
-  translators = []
+  translators = [t_c12.run]
   case_timeout_s = 240
   jobs_quick = 8
   rule = ('specs as in C11 (random trees incl. float points, depth<=3, size bound<=300) decorated with '
@@ -391,6 +421,7 @@ class C12(Prop):
     out['parse_compact'] = attempt(lambda: geno.DNA(compact))
     out['parse_verbose'] = attempt(lambda: pg_sym.from_json(d.to_json(compact=False)))
     out['beliefs'] = beliefs(d)
+    out['lookup_tables'] = lookup_tables(d, spec)
     dicts = []
     for kt, vt, mk in GRID:
       dicts.append(canon_dict(d.to_dict(key_type=kt, value_type=vt, multi_choice_key=mk)))
@@ -459,6 +490,10 @@ class C12(Prop):
     spec_j = case['spec']
     spec = H.build_spec(spec_j)
     out, obs = {'dnas': [], 'chains': []}, {'dnas': [], 'chains': []}
+    # no two decision points render to the same id: then the spec-keyed intermediate dictionary of
+    # named_decisions is the id-keyed one of the model, and the look-up tables are compared
+    all_ids = [str(dp.id) for dp in spec.decision_points]
+    out['ids_unique'] = len(set(all_ids)) == len(all_ids)
     for t in case['dnas']:
       d = H.mk_dna(t)
       d.use_spec(spec)
@@ -533,6 +568,9 @@ class C12(Prop):
           chk('dna%d.to_dict(%s,%s,%s)' % (i, kt, vt, mk), x, sort_dict(y))
         for (kt, vt, mk), x, y in zip(GRID, da['from_dicts'], db.get('from_dicts') or []):
           chk('dna%d.from_dict(to_dict(%s,%s,%s))' % (i, kt, vt, mk), x, y)
+        if a.get('ids_unique'):
+          for k in ('by_id', 'named', 'ids', 'items'):
+            chk('dna%d.lookup_tables.%s' % (i, k), da['lookup_tables'][k], (db.get('lookup_tables') or {}).get(k))
         # C12_dict_roundtrip: where the model's decidable condition holds the CODE must round-trip
         for (kt, vt, mk), x, cond in zip(GRID, da['from_dicts'], db.get('dict_conds') or []):
           if cond and x != da['norm']:
